@@ -29,6 +29,22 @@ pub struct P {
     pub y: u32,
 }
 
+/// A struct that is NOT layout-stable (`Option` has no defined layout): references to it and
+/// slices of it are serialized even between identical binaries. Serialized: 4 + 1 (+ 1) bytes.
+#[derive(Savefile, Clone, Debug, PartialEq)]
+pub struct O {
+    pub w: u32,
+    pub tag: Option<u8>,
+}
+
+/// An enum without `repr`: serialized as variant number (1 byte) + payload (0, 4 or 8 + n bytes).
+#[derive(Savefile, Clone, Debug, PartialEq)]
+pub enum E {
+    A,
+    B(u32),
+    C(String),
+}
+
 /// The exported trait used for boxed / borrowed trait objects in both directions.
 #[savefile_abi_exportable(version = 0)]
 pub trait T2 {
@@ -137,6 +153,8 @@ pub struct ArgKindMeta {
     pub owned: bool,
     pub closure: bool,
     pub quick: bool,
+    /// member of the pair alphabet (group B)
+    pub pair: bool,
 }
 pub struct RetKindMeta {
     pub id: &'static str,
@@ -153,6 +171,8 @@ pub struct MethodMeta {
     pub group: &'static str,
 }
 pub struct TraitMeta {
+    /// position in the generated family (the canonical order of the work list)
+    pub ord: usize,
     pub name: &'static str,
     pub quick: bool,
     pub isolate: bool,
@@ -190,6 +210,58 @@ fn p_to_json(p: &P) -> Value {
 }
 fn p_of(v: &Value) -> P {
     P { x: u32_of(&v["x"]), y: u32_of(&v["y"]) }
+}
+fn u64_of(v: &Value) -> u64 {
+    v.as_u64().unwrap_or_else(|| vcommon::machinery_error(&format!("case value is not a u64: {}", v)))
+}
+fn arr_of<'a>(v: &'a Value) -> &'a Vec<Value> {
+    v.as_array().unwrap_or_else(|| vcommon::machinery_error(&format!("case value is not an array: {}", v)))
+}
+pub fn o_to_json(o: &O) -> Value {
+    json!({"w": o.w, "tag": o.tag})
+}
+pub fn o_of(v: &Value) -> O {
+    O { w: u32_of(&v["w"]), tag: if v["tag"].is_null() { None } else { Some(u32_of(&v["tag"]) as u8) } }
+}
+/// "A" | {"B": n} | {"C": "text"}
+pub fn e_to_json(e: &E) -> Value {
+    match e {
+        E::A => json!("A"),
+        E::B(n) => json!({ "B": n }),
+        E::C(s) => json!({ "C": s }),
+    }
+}
+pub fn e_of(v: &Value) -> E {
+    if let Some(n) = v.get("B") {
+        E::B(u32_of(n))
+    } else if let Some(s) = v.get("C") {
+        E::C(str_of(s))
+    } else if v.as_str() == Some("A") {
+        E::A
+    } else {
+        vcommon::machinery_error(&format!("case value is not an E: {}", v))
+    }
+}
+fn optu32_of(v: &Value) -> Option<u32> {
+    if v.is_null() {
+        None
+    } else {
+        Some(u32_of(v))
+    }
+}
+fn tup2_of(v: &Value) -> (u32, u32) {
+    (u32_of(&v[0]), u32_of(&v[1]))
+}
+fn tup3_of(v: &Value) -> (u8, u8, u8) {
+    (u32_of(&v[0]) as u8, u32_of(&v[1]) as u8, u32_of(&v[2]) as u8)
+}
+fn char_of(v: &Value) -> char {
+    let s = str_of(v);
+    let mut it = s.chars();
+    match (it.next(), it.next()) {
+        (Some(c), None) => c,
+        _ => vcommon::machinery_error(&format!("case value is not a char: {}", v)),
+    }
 }
 fn arg_ev(i: usize, v: Value) {
     log(json!({"ev": "arg", "i": i, "v": v}));
@@ -390,6 +462,75 @@ pub fn obs_tup(_cx: &ImplCtx, i: usize, a: &mut (u32, String)) {
 pub fn obs_optstring(_cx: &ImplCtx, i: usize, a: &mut Option<String>) {
     arg_ev(i, json!(*a));
 }
+pub fn obs_slo(_cx: &ImplCtx, i: usize, a: &mut &[O]) {
+    arg_ev(i, Value::Array(a.iter().map(o_to_json).collect()));
+}
+pub fn obs_slopt(_cx: &ImplCtx, i: usize, a: &mut &[Option<u32>]) {
+    arg_ev(i, json!(*a));
+}
+pub fn obs_sle(_cx: &ImplCtx, i: usize, a: &mut &[E]) {
+    arg_ev(i, Value::Array(a.iter().map(e_to_json).collect()));
+}
+pub fn obs_slu8(_cx: &ImplCtx, i: usize, a: &mut &[u8]) {
+    arg_ev(i, json!(*a));
+}
+pub fn obs_sls(_cx: &ImplCtx, i: usize, a: &mut &[S]) {
+    arg_ev(i, Value::Array(a.iter().map(s_to_json).collect()));
+}
+pub fn obs_slstring(_cx: &ImplCtx, i: usize, a: &mut &[String]) {
+    arg_ev(i, json!(*a));
+}
+pub fn obs_slp(_cx: &ImplCtx, i: usize, a: &mut &[P]) {
+    arg_ev(i, Value::Array(a.iter().map(p_to_json).collect()));
+}
+pub fn obs_sltup(_cx: &ImplCtx, i: usize, a: &mut &[(u32, u32)]) {
+    arg_ev(i, Value::Array(a.iter().map(|t| json!([t.0, t.1])).collect()));
+}
+pub fn obs_rvo(_cx: &ImplCtx, i: usize, a: &mut &Vec<O>) {
+    arg_ev(i, Value::Array(a.iter().map(o_to_json).collect()));
+}
+pub fn obs_ro(_cx: &ImplCtx, i: usize, a: &mut &O) {
+    arg_ev(i, o_to_json(a));
+}
+pub fn obs_re(_cx: &ImplCtx, i: usize, a: &mut &E) {
+    arg_ev(i, e_to_json(a));
+}
+pub fn obs_roptstring(_cx: &ImplCtx, i: usize, a: &mut &Option<String>) {
+    arg_ev(i, json!(**a));
+}
+pub fn obs_rvu32(_cx: &ImplCtx, i: usize, a: &mut &Vec<u32>) {
+    arg_ev(i, json!(**a));
+}
+pub fn obs_u8(_cx: &ImplCtx, i: usize, a: &mut u8) {
+    arg_ev(i, json!(*a));
+}
+pub fn obs_u64(_cx: &ImplCtx, i: usize, a: &mut u64) {
+    arg_ev(i, json!(*a));
+}
+pub fn obs_tup2(_cx: &ImplCtx, i: usize, a: &mut (u32, u32)) {
+    arg_ev(i, json!([a.0, a.1]));
+}
+pub fn obs_tup3(_cx: &ImplCtx, i: usize, a: &mut (u8, u8, u8)) {
+    arg_ev(i, json!([a.0, a.1, a.2]));
+}
+pub fn obs_bool(_cx: &ImplCtx, i: usize, a: &mut bool) {
+    arg_ev(i, json!(*a));
+}
+pub fn obs_char(_cx: &ImplCtx, i: usize, a: &mut char) {
+    arg_ev(i, json!(a.to_string()));
+}
+pub fn obs_optunit(_cx: &ImplCtx, i: usize, a: &mut Option<()>) {
+    arg_ev(i, json!(a.is_some()));
+}
+pub fn obs_o(_cx: &ImplCtx, i: usize, a: &mut O) {
+    arg_ev(i, o_to_json(a));
+}
+pub fn obs_e(_cx: &ImplCtx, i: usize, a: &mut E) {
+    arg_ev(i, e_to_json(a));
+}
+pub fn obs_veco(_cx: &ImplCtx, i: usize, a: &mut Vec<O>) {
+    arg_ev(i, Value::Array(a.iter().map(o_to_json).collect()));
+}
 pub fn obs_boxt2(_cx: &ImplCtx, i: usize, a: &mut Box<dyn T2>) {
     let r = use_t2_mut(&mut **a, 3);
     arg_ev(i, r);
@@ -501,6 +642,24 @@ pub fn ret_vecu32(cx: &ImplCtx) -> Vec<u32> {
 }
 pub fn ret_vecs(cx: &ImplCtx) -> Vec<S> {
     cx.ret.as_array().map(|a| a.iter().map(s_of).collect()).unwrap_or_default()
+}
+pub fn ret_u64(cx: &ImplCtx) -> u64 {
+    u64_of(&cx.ret)
+}
+pub fn ret_u8(cx: &ImplCtx) -> u8 {
+    u32_of(&cx.ret) as u8
+}
+pub fn ret_tup2(cx: &ImplCtx) -> (u32, u32) {
+    tup2_of(&cx.ret)
+}
+pub fn ret_tup3(cx: &ImplCtx) -> (u8, u8, u8) {
+    tup3_of(&cx.ret)
+}
+pub fn ret_veco(cx: &ImplCtx) -> Vec<O> {
+    arr_of(&cx.ret).iter().map(o_of).collect()
+}
+pub fn ret_e(cx: &ImplCtx) -> E {
+    e_of(&cx.ret)
 }
 pub fn ret_sstr(cx: &ImplCtx) -> &'static str {
     STATIC_STRS[u32_of(&cx.ret) as usize % STATIC_STRS.len()]
@@ -668,6 +827,83 @@ pub fn mk_optstring(_cc: &CallCtx, _i: usize, v: &Value) -> Option<String> {
         Some(str_of(v))
     }
 }
+pub fn mk_slo(_cc: &CallCtx, _i: usize, v: &Value) -> Vec<O> {
+    arr_of(v).iter().map(o_of).collect()
+}
+pub fn mk_slopt(_cc: &CallCtx, _i: usize, v: &Value) -> Vec<Option<u32>> {
+    arr_of(v).iter().map(optu32_of).collect()
+}
+pub fn mk_sle(_cc: &CallCtx, _i: usize, v: &Value) -> Vec<E> {
+    arr_of(v).iter().map(e_of).collect()
+}
+pub fn mk_slu8(_cc: &CallCtx, _i: usize, v: &Value) -> Vec<u8> {
+    arr_of(v).iter().map(|x| u32_of(x) as u8).collect()
+}
+pub fn mk_sls(_cc: &CallCtx, _i: usize, v: &Value) -> Vec<S> {
+    arr_of(v).iter().map(s_of).collect()
+}
+pub fn mk_slstring(_cc: &CallCtx, _i: usize, v: &Value) -> Vec<String> {
+    arr_of(v).iter().map(str_of).collect()
+}
+pub fn mk_slp(_cc: &CallCtx, _i: usize, v: &Value) -> Vec<P> {
+    arr_of(v).iter().map(p_of).collect()
+}
+pub fn mk_sltup(_cc: &CallCtx, _i: usize, v: &Value) -> Vec<(u32, u32)> {
+    arr_of(v).iter().map(tup2_of).collect()
+}
+pub fn mk_rvo(_cc: &CallCtx, _i: usize, v: &Value) -> Vec<O> {
+    arr_of(v).iter().map(o_of).collect()
+}
+pub fn mk_ro(_cc: &CallCtx, _i: usize, v: &Value) -> O {
+    o_of(v)
+}
+pub fn mk_re(_cc: &CallCtx, _i: usize, v: &Value) -> E {
+    e_of(v)
+}
+pub fn mk_roptstring(_cc: &CallCtx, _i: usize, v: &Value) -> Option<String> {
+    if v.is_null() {
+        None
+    } else {
+        Some(str_of(v))
+    }
+}
+pub fn mk_rvu32(_cc: &CallCtx, _i: usize, v: &Value) -> Vec<u32> {
+    arr_of(v).iter().map(u32_of).collect()
+}
+pub fn mk_u8(_cc: &CallCtx, _i: usize, v: &Value) -> u8 {
+    u32_of(v) as u8
+}
+pub fn mk_u64(_cc: &CallCtx, _i: usize, v: &Value) -> u64 {
+    u64_of(v)
+}
+pub fn mk_tup2(_cc: &CallCtx, _i: usize, v: &Value) -> (u32, u32) {
+    tup2_of(v)
+}
+pub fn mk_tup3(_cc: &CallCtx, _i: usize, v: &Value) -> (u8, u8, u8) {
+    tup3_of(v)
+}
+pub fn mk_bool(_cc: &CallCtx, _i: usize, v: &Value) -> bool {
+    v.as_bool().unwrap_or_else(|| vcommon::machinery_error(&format!("case value is not a bool: {}", v)))
+}
+pub fn mk_char(_cc: &CallCtx, _i: usize, v: &Value) -> char {
+    char_of(v)
+}
+pub fn mk_optunit(_cc: &CallCtx, _i: usize, v: &Value) -> Option<()> {
+    if mk_bool(_cc, _i, v) {
+        Some(())
+    } else {
+        None
+    }
+}
+pub fn mk_o(_cc: &CallCtx, _i: usize, v: &Value) -> O {
+    o_of(v)
+}
+pub fn mk_e(_cc: &CallCtx, _i: usize, v: &Value) -> E {
+    e_of(v)
+}
+pub fn mk_veco(_cc: &CallCtx, _i: usize, v: &Value) -> Vec<O> {
+    arr_of(v).iter().map(o_of).collect()
+}
 /// `"wrapped": true`: the object handed over is itself an `AbiConnection` (an object that came
 /// out of one connection is passed into another one)
 pub fn mk_boxt2(cc: &CallCtx, i: usize, v: &Value) -> Box<dyn T2> {
@@ -775,6 +1011,24 @@ pub fn rv_vecu32(_cc: &CallCtx, r: Vec<u32>) -> Value {
 }
 pub fn rv_vecs(_cc: &CallCtx, r: Vec<S>) -> Value {
     Value::Array(r.iter().map(s_to_json).collect())
+}
+pub fn rv_u64(_cc: &CallCtx, r: u64) -> Value {
+    json!(r)
+}
+pub fn rv_u8(_cc: &CallCtx, r: u8) -> Value {
+    json!(r)
+}
+pub fn rv_tup2(_cc: &CallCtx, r: (u32, u32)) -> Value {
+    json!([r.0, r.1])
+}
+pub fn rv_tup3(_cc: &CallCtx, r: (u8, u8, u8)) -> Value {
+    json!([r.0, r.1, r.2])
+}
+pub fn rv_veco(_cc: &CallCtx, r: Vec<O>) -> Value {
+    Value::Array(r.iter().map(o_to_json).collect())
+}
+pub fn rv_e(_cc: &CallCtx, r: E) -> Value {
+    e_to_json(&r)
 }
 pub fn rv_boxt2(cc: &CallCtx, mut r: Box<dyn T2>) -> Value {
     let v = use_t2_mut(&mut *r, 2);
